@@ -304,10 +304,34 @@ def run_buffer(seed, replay):
 
     try:
         for _ in range(4 + c.choose(40)):
-            k = c.choose(14)
+            k = c.choose(15)
             name = None
             try:
-                if k in (0, 1, 2, 3):
+                if k == 14:
+                    # __init__ again on a live object: a refused call must leave it exactly as it was, an
+                    # accepted one gives a fresh buffer of the new capacity
+                    name = "__init__"
+                    ncap = (-1, -8, 1 << 62, 0, 1, 5, 16)[c.choose(7)]
+                    try:
+                        buf.__init__(capacity=ncap)
+                        ok = True
+                    except (ValueError, MemoryError, OverflowError):
+                        ok = False
+                    if ok:
+                        if ncap < 0 or ncap > 1 << 40:
+                            raise Violation("c04.buffer", "unusable-capacity-accepted",
+                                            "__init__(capacity=%d) on a live Buffer was accepted" % ncap)
+                        cap = ncap
+                        pos = 0
+                        model = bytearray(buf.data_slice(0, cap))
+                        ops.append((name, "ok"))
+                    else:
+                        ops.append((name, "rejected"))
+                        probes["rejected:__init__"] = probes.get("rejected:__init__", 0) + 1
+                    k = None
+                if k is None:
+                    pass
+                elif k in (0, 1, 2, 3):
                     name = ("uint8", "uint16", "uint32", "uint64")[k]
                     n = SIZES[name]
                     got = getattr(buf, "pull_" + name)()
@@ -375,7 +399,7 @@ def run_buffer(seed, replay):
                     if got != want:
                         raise Violation("c04.buffer", "pull_uint_var-wrong", "got %r want %r" % (got, want))
                     pos += n
-                else:
+                elif k is not None:
                     name = "push_uint_var"
                     v = arg()
                     buf.push_uint_var(v)
@@ -387,7 +411,8 @@ def run_buffer(seed, replay):
                         raise Violation("c04.buffer", "push_uint_var-beyond-capacity", "at %d of %d" % (pos, cap))
                     model[pos:pos + n] = (v | ((n.bit_length() - 1) << (8 * n - 2))).to_bytes(n, "big")
                     pos += n
-                ops.append((name, "ok"))
+                if k is not None:
+                    ops.append((name, "ok"))
             except (BufferReadError, BufferWriteError, ValueError, OverflowError, TypeError) as e:
                 ops.append((name, type(e).__name__))
                 probes["rejected:" + str(name)] = probes.get("rejected:" + str(name), 0) + 1
